@@ -142,7 +142,7 @@ Theorem C02_m1_rejected :
     let c := fst (run sched (init_cfg prog_m1 (Some empty_db) [Par 0 true false true 30; Par 1 true false true 30])) in
     map t_st (c_thrs c) = [Fin; Fin] /\ rows_of c = [1].
 Proof.
-  repeat split; try (vm_compute; reflexivity).
+  split; [vm_compute; reflexivity|]. split; [vm_compute; reflexivity|]. split; [vm_compute; reflexivity|].
   exists ([0;0;0;0; 1;1;1;1] ++ repeat 0 30 ++ repeat 1 30). vm_compute. auto.
 Qed.
 Print Assumptions C02_m1_rejected.
